@@ -194,6 +194,26 @@ def shapes(tier):
                 t = Ty(cont, members=[Mem('a-b', Ty(k, elem=inn())), Mem('c', P('INTEGER'))])
                 out.append((f"C18 {cont} member {k} of {il}", f"M-x DEFINITIONS AUTOMATIC TAGS ::= BEGIN R ::= SEQUENCE {{ z BOOLEAN }} T-y ::= {t.text()} END",
                             {'module': 'M-x', 'defs': [('R', Ty('seq', members=[Mem('z', P('BOOLEAN'))])), ('T-y', t)]}))
+    # component lists that are empty, with and without an extension marker, at top level and nested
+    for kw, kind in (('SEQUENCE', 'seq'), ('SET', 'set')):
+        for ext in (False, True):
+            body = '{ ... }' if ext else '{ }'
+            e = Ty(kind, members=[])
+            e.extensible = ext
+            common = {'module': 'M-x'}
+            out.append((f"C18 empty {kw}{' ext' if ext else ''} top", f"M-x DEFINITIONS AUTOMATIC TAGS ::= BEGIN T-y ::= {kw} {body} END", dict(common, defs=[('T-y', e)])))
+            out.append((f"C18 empty {kw}{' ext' if ext else ''} member", f"M-x DEFINITIONS AUTOMATIC TAGS ::= BEGIN T-y ::= SEQUENCE {{ a {kw} {body}, b {kw} {body} OPTIONAL }} END",
+                        dict(common, defs=[('T-y', Ty('seq', members=[Mem('a', e), Mem('b', e, 'optional')]))])))
+            out.append((f"C18 empty {kw}{' ext' if ext else ''} element", f"M-x DEFINITIONS AUTOMATIC TAGS ::= BEGIN T-y ::= SEQUENCE OF {kw} {body} END",
+                        dict(common, defs=[('T-y', Ty('seqof', elem=e))])))
+            out.append((f"C18 empty {kw}{' ext' if ext else ''} alternative", f"M-x DEFINITIONS AUTOMATIC TAGS ::= BEGIN T-y ::= CHOICE {{ a {kw} {body}, b NULL }} END",
+                        dict(common, defs=[('T-y', Ty('choice', members=[Mem('a', e), Mem('b', P('NULL'))]))])))
+        # the marker first / last with one member
+        for pos in ('first', 'last'):
+            e = Ty(kind, members=[Mem('m', P('BOOLEAN'), 'optional' if pos == 'first' else 'req')])
+            e.extensible = True
+            body = '{ ..., m BOOLEAN OPTIONAL }' if pos == 'first' else '{ m BOOLEAN, ... }'
+            out.append((f"C18 {kw} marker {pos}", f"M-x DEFINITIONS AUTOMATIC TAGS ::= BEGIN T-y ::= {kw} {body} END", {'module': 'M-x', 'defs': [('T-y', e)]}))
     for pn in sorted(PRIM_TS):
         out.append((f"C18 top prim {pn}", f"M-x DEFINITIONS AUTOMATIC TAGS ::= BEGIN T-y ::= {pn} END", {'module': 'M-x', 'defs': [('T-y', P(pn))]}))
     out.append(("C18 top alias", "M-x DEFINITIONS AUTOMATIC TAGS ::= BEGIN R ::= SEQUENCE { z BOOLEAN } T-y ::= R END",
